@@ -1,6 +1,7 @@
 import LitedramVerif.Model.BankMachine
 import LitedramVerif.Model.Refresher
 import LitedramVerif.Model.Controller
+import LitedramVerif.Model.Core
 import Drv.Util
 open DrvUtil
 
@@ -65,3 +66,31 @@ def drvController (st : Option (Controller.Cfg × Controller.State)) (xs : List 
     let bo := outs.toList.flatMap fun o => [b2n o.ready, b2n o.lock, b2n o.wdataReady, b2n o.rdataValid]
     let po := s.dfi.toList.flatMap fun p => [p.csN, p.bank, p.address, b2n p.casN, b2n p.rasN, b2n p.weN, b2n p.rddataEn, b2n p.wrdataEn]
     (some (c, s'), fmt (bo ++ po))
+
+/-- Whole-core driver. cfg line = the 35 controller numbers, then: nmasters bba burst phaseBits wl rl.
+per cycle: nmasters × (cmdValid cmdWe cmdAddr wdata wdataWe).
+Output: per master "cmdReady wdataReady rdataValid rdata", then per phase the DFI command registers (8 numbers). -/
+def drvCore (st : Option (Core.Cfg × Core.State)) (xs : List Nat) : Option (Core.Cfg × Core.State) × String :=
+  match st, xs with
+  | none, cfg =>
+    match (drvController none (cfg.take 35)).1 with
+    | some (cc, _) =>
+      let g := fun (k : Nat) => cfg.toArray.getD (35 + k) 0
+      let nmasters := g 0; let bba := g 1; let burst := g 2; let phaseBits := g 3; let wl := g 4; let rl := g 5
+      let geom : AddrMap.Geom := { bankbits := cc.bankbits, rowbits := cc.bm.rowbits, colbits := cc.bm.colbits, align := cc.bm.align,
+                                   rankbits := cc.rankbits, bba }
+      let xb : Crossbar.Cfg := { nmasters, nbanks := cc.nbm, geom, wlat := wl + 1, rlat := rl + 1 }
+      let phy : SimPhy.Cfg := { nphases := cc.nphases, nbanks := 2 ^ cc.bankbits, rowbits := cc.bm.rowbits, colbits := cc.bm.colbits,
+                                burst, phaseBits, writeLatency := wl, readLatency := rl, weGranularity := 8 }
+      let c : Core.Cfg := { xb, ctl := cc, phy }
+      (some (c, Core.init c), "cfg")
+    | none => (none, "bad-cfg")
+  | some (c, s), xs =>
+    let arr := xs.toArray
+    let ms := (Array.range c.xb.nmasters).map fun i =>
+      ({ cmdValid := n2b (arr.getD (5*i) 0), cmdWe := n2b (arr.getD (5*i+1) 0), cmdAddr := arr.getD (5*i+2) 0,
+         wdata := arr.getD (5*i+3) 0, wdataWe := arr.getD (5*i+4) 0 } : Crossbar.MasterIn)
+    let (s', mo, dfi) := Core.step c s ms
+    let a := mo.toList.flatMap fun o => [b2n o.cmdReady, b2n o.wdataReady, b2n o.rdataValid, o.rdata]
+    let po := dfi.toList.flatMap fun p => [p.csN, p.bank, p.address, b2n p.casN, b2n p.rasN, b2n p.weN, b2n p.rddataEn, b2n p.wrdataEn]
+    (some (c, s'), fmt (a ++ po))
